@@ -14,6 +14,9 @@ COMMON_ASSUME = [
 PROPS = {
     "C15": dict(
         level="exploration",
+        technique="runtime monitor: bounded-exhaustive + random inputs against both decoders under catch_unwind, a counting allocator and an independent strict RESP decoder; fragment-vs-whole replay; replies of real commands re-decoded; child-process abort detection",
+        level_text="Every string over the RESP grammar alphabet up to length 6 (quick) / 7 (thorough), a header-shaped grid with negative/huge/overflowing lengths, random and mutated frames are run through RespCodec::parse and RespParser::parse in debug and release builds while monitors watch for panics, consumed-count errors, single allocations above 64*|input|+4 KiB, disagreement with an independent decoder on well-formed frames and prefix instability; valid and damaged streams are replayed under every 1- and 2-point fragmentation; replies produced by real commands (including client bytes with CR/LF reflected into errors) are pushed through every encoder, incl. the connection's via hook H1, and re-decoded. Held on the executions listed in the evidence, nothing more.",
+        level_note="trusts the harness's strict RESP2 decoder as the definition of well-formed, the counting allocator for allocation sizes, and catch_unwind/child exit status for crashes; Lua, ACL and TLS paths are not part of this check",
         rule="case = one byte string (bounded-exhaustive over the alphabet '+-:$*019\\r\\na' up to the stated length, the header-shaped grid type×sign×digits×terminator×tail, seeded random strings and mutated valid frames), one valid/damaged stream with all its 1- and 2-point fragmentations, or one value emitted by a real command and pushed through an encoder; distinct_nontrivial = distinct (parser, type byte, length-field class, outcome kind, length bucket) tuples + distinct reply classes (command name, reply kind) + distinct tree shapes, counted by hashing",
         exhaustive_note="exhaustive: true refers to the enumerated alphabet strings up to enumerated_lmax and the header-shaped grid only",
         assumptions=COMMON_ASSUME + [
